@@ -323,7 +323,17 @@ class QSim:
         wd.start()
         try:
             with running(self.loop):
-                self.q = Queue(maxsize=run["config"].get("maxsize", 0))
+                qk = run["config"].get("qcls", 0)
+                if qk == 1:
+                    qcls = type("PQ", (asyncio.PriorityQueue, Queue), {})     # stdlib ordering first: its _get() does not call super()
+                elif qk == 2:
+                    qcls = type("LQ", (asyncio.LifoQueue, Queue), {})
+                elif qk == 3:
+                    qcls = type("QP", (Queue, asyncio.PriorityQueue), {})
+                else:
+                    qcls = Queue
+                self.stats["probe:queue_class_%d" % qk] += 1
+                self.q = qcls(maxsize=run["config"].get("maxsize", 0))
                 if source is None:
                     for st in run["steps"]:
                         self.exec_step(st)
@@ -390,7 +400,8 @@ class QGen:
                   "gate": 6, "gate_x": rng.choice([0, 1, 2]), "join": rng.choice([1, 2]), "run": 5, "idle": 2}
 
     def config(self):
-        return {"hmask": self.rng.choice([0, 3, 5]), "maxsize": self.rng.choice([0, 0, 1, 2] if not self.big else [0, 10, 12])}
+        return {"hmask": self.rng.choice([0, 3, 5]), "maxsize": self.rng.choice([0, 0, 1, 2] if not self.big else [0, 10, 12]),
+                "qcls": self.rng.choice([0, 0, 0, 1, 2, 3])}
 
     def next_step(self, sim):
         if self.count >= self.n:
